@@ -95,6 +95,13 @@ def _feed_aad(ci, aad, sh):
             ci.update(aad[cut:])
 
 
+def _flip(b):
+    b = bytearray(b)
+    if b:
+        b[-1] ^= 1
+    return bytes(b)
+
+
 def run_dec(env, sh):
     """receiver keyed with (key, nonce) is offered an arbitrary (aad, ct, tag)."""
     mode = sh['mode']
@@ -102,6 +109,28 @@ def run_dec(env, sh):
     aad = env.bytes('aad', sh['alen'])
     ct = env.bytes('ct', sh['dlen'])
     tag = env.bytes('tag', sh['tlen'])
+    tags = [tag]
+    if not env.sym and _legal(mode, sh):
+        # replay: a solver model fixes the tag only relative to its own interpretation of the
+        # uninterpreted primitives; with the real primitives also offer the specification tag,
+        # a one-bit mutation of it and the tag the library's own sender produces
+        _, rt = _ref(env.P, mode, key, nonce, aad, ct, sh, True)
+        if len(rt) == sh['tlen']:
+            tags += [rt, _flip(rt)]
+        try:
+            rpt, _ = _ref(env.P, mode, key, nonce, aad, ct, sh, True)
+            tx = _new(mode, key, nonce, sh)
+            _feed_aad(tx, aad, sh)
+            _, st = tx.encrypt_and_digest(rpt)
+            if len(st) == sh['tlen']:
+                tags.append(st)
+        except (ValueError, TypeError):
+            pass
+    for t in tags:
+        _dec_once(env, sh, mode, key, nonce, aad, ct, t)
+
+
+def _dec_once(env, sh, mode, key, nonce, aad, ct, tag):
     try:
         ci = _new(mode, key, nonce, sh)
     except ValueError:
@@ -163,12 +192,23 @@ def run_enc(env, sh):
 # ---- SIV (vector AAD, tag is the IV)
 
 def run_siv_dec(env, sh):
-    AES, _ = _mods()
     key = env.bytes('key', sh['klen'])
     nonce = None if sh['nlen'] is None else env.bytes('nonce', sh['nlen'])
     comps = [env.bytes('ad%d' % i, n) for i, n in enumerate(sh['comps'])]
     ct = env.bytes('ct', sh['dlen'])
     tag = env.bytes('tag', sh['tlen'])
+    offers = [(ct, tag)]
+    if not env.sym and _legal('siv', sh) and sh['tlen'] == 16:
+        allc = comps + ([nonce] if nonce is not None else [])
+        c2, v2 = M.siv_encrypt(env.P, 'AES', key, allc, env.bytes('pt_alt', sh['dlen']))
+        offers += [(c2, v2), (c2, _flip(v2))]
+        if sh['dlen']:
+            offers.append((_flip(c2), v2))
+    for c, t in offers:
+        _siv_dec_once(env, sh, key, nonce, comps, c, t)
+
+
+def _siv_dec_once(env, sh, key, nonce, comps, ct, tag):
     try:
         ci = _new('siv', key, nonce, sh)
     except ValueError:
@@ -222,9 +262,18 @@ ICV1 = b"\xa6" * 8
 
 
 def run_kw_unseal(env, sh):
-    AES, _ = _mods()
     key = env.bytes('key', sh['klen'])
     ct = env.bytes('ct', sh['dlen'])
+    offers = [ct]
+    if not env.sym and sh['dlen'] % 8 == 0 and sh['dlen'] >= 24:
+        good = M.kw_W(env.P, 'AES', key, ICV1 + env.bytes('pt_alt', sh['dlen'] - 8))
+        offers += [good, _flip(good)]
+    for c in offers:
+        _kw_unseal_once(env, sh, key, c)
+
+
+def _kw_unseal_once(env, sh, key, ct):
+    AES, _ = _mods()
     ci = AES.new(key, AES.MODE_KW)
     legal_len = sh['dlen'] % 8 == 0 and sh['dlen'] >= 24
     try:
@@ -259,10 +308,28 @@ def run_kw_seal(env, sh):
 
 
 def run_kwp_unseal(env, sh):
-    AES, _ = _mods()
-    P = env.P
     key = env.bytes('key', sh['klen'])
     ct = env.bytes('ct', sh['dlen'])
+    offers = [ct]
+    if not env.sym and sh['dlen'] % 8 == 0 and sh['dlen'] >= 16:
+        for plen in range(sh['dlen'] - 15, sh['dlen'] - 7):
+            if plen >= 1:
+                good = M.kwp_wrap(env.P, 'AES', key, env.bytes('pt_alt%d' % plen, plen))
+                offers += [good, _flip(good)]
+        # non-zero padding / wrong length field under a valid ICV2
+        n8 = sh['dlen'] - 8
+        for body in (b"\xa6\x59\x59\xa6" + (n8 - 1).to_bytes(4, 'big') + bytes(n8 - 1) + b"\x01",
+                     b"\xa6\x59\x59\xa6" + (n8 + 1).to_bytes(4, 'big') + bytes(n8),
+                     b"\xa6\x59\x59\xa6" + (n8 - 8).to_bytes(4, 'big', signed=False) + bytes(n8) if n8 >= 8 else None):
+            if body is not None:
+                offers.append(env.P.E('AES', key, body) if len(body) == 16 else M.kw_W(env.P, 'AES', key, body))
+    for c in offers:
+        _kwp_unseal_once(env, sh, key, c)
+
+
+def _kwp_unseal_once(env, sh, key, ct):
+    AES, _ = _mods()
+    P = env.P
     ci = AES.new(key, AES.MODE_KWP)
     legal_len = sh['dlen'] % 8 == 0 and sh['dlen'] >= 16
     try:
@@ -334,7 +401,7 @@ def _mode_jobs(mode, thorough):
     jobs = []
     keys = (32,) if mode == 'chacha' else KEYS
     nonces = NONCES[mode] if thorough else \
-        dict(gcm=(1, 12, 17), ccm=(7, 13), eax=(1, 16, 17), ocb=(1, 15), chacha=(8, 12, 24))[mode]
+        dict(gcm=(1, 12, 16, 17), ccm=(7, 13), eax=(1, 16, 17), ocb=(1, 14, 15), chacha=(8, 12, 24))[mode]
     macs = MACS[mode] if thorough else (MACS[mode][0], MACS[mode][-1])
     full = [(a, d) for a in LENS_T for d in LENS_T]
     for k in keys:
